@@ -31,9 +31,9 @@ FRAMES = [
 NK = len(FRAMES)
 K_ACK, K_NEXT, K_PING, K_PONG, K_COMPLETE, K_ERROR, K_NONJSON, K_BOGUS, K_NOTYPE, K_NODATA, K_NEXT2, K_EMPTYDATA = range(NK)
 # further malformed frames, explored as the frame right after the ack only (the handler does not depend on the position)
-FRAMES_EXT = FRAMES + ['[1]', '"text"', '{"type": 5}', '{"type": "next", "id": "1", "payload": null}', '{"type": null}']
+FRAMES_EXT = FRAMES + ['[1]', '"text"', '{"type": 5}', '{"type": "next", "id": "1", "payload": null}', '{"type": null}', '{"type": ["next"]}', '{"type": {}}']
 NK_EXT = len(FRAMES_EXT)
-K_ARRAY, K_STRING, K_TYPENUM, K_NULLPAYLOAD, K_TYPENULL = range(NK, NK_EXT)
+K_ARRAY, K_STRING, K_TYPENUM, K_NULLPAYLOAD, K_TYPENULL, K_TYPELIST, K_TYPEOBJ = range(NK, NK_EXT)
 
 
 class Inp(BaseModel):
@@ -163,7 +163,7 @@ def spec(kinds, init_payload, variables_json):
             return sent, out, None
         elif k == K_ERROR:
             return sent, out, "GraphQLClientGraphQLMultiError"
-        elif k in (K_NONJSON, K_BOGUS, K_NOTYPE, K_NODATA, K_ARRAY, K_STRING, K_TYPENUM, K_NULLPAYLOAD, K_TYPENULL):
+        elif k in (K_NONJSON, K_BOGUS, K_NOTYPE, K_NODATA, K_ARRAY, K_STRING, K_TYPENUM, K_NULLPAYLOAD, K_TYPENULL, K_TYPELIST, K_TYPEOBJ):
             # not JSON / JSON that is not a message object / unknown, missing or non-string type / next without data
             return sent, out, "GraphQLClientInvalidMessageFormat"
         # ack / pong after the handshake: ignored
